@@ -33,7 +33,7 @@ package parse
 
 //@ func (p *metaParser) next
 //@   requires p.scanner != nil
-//@   assigns p.pos, p.tok, p.text, p.failed, p.errors, elems(p.errors), scanLeft
+//@   assigns p.pos, p.tok, p.text, p.failed, p.errors, elems(p.errors), scanLeft, scanEnd
 //@   ensures scanLeft >= 0
 //@   ensures [C08] old(scanLeft) > 0 ==> scanLeft == old(scanLeft) - 1 && p.tok != 1
 //@   ensures [C08] old(scanLeft) <= 0 ==> scanLeft == 0 && p.tok == 1
@@ -42,7 +42,7 @@ package parse
 
 //@ func (p *metaParser) parseIdent() (id)
 //@   requires p.scanner != nil && p.fset != nil
-//@   assigns p.pos, p.tok, p.text, p.failed, p.errors, elems(p.errors), scanLeft
+//@   assigns p.pos, p.tok, p.text, p.failed, p.errors, elems(p.errors), scanLeft, scanEnd
 //@   ensures scanLeft >= 0
 //@   ensures [C08] old(scanLeft) > 0 ==> scanLeft == old(scanLeft) - 1 && p.tok != 1
 //@   ensures [C08] old(scanLeft) <= 0 ==> scanLeft == 0 && p.tok == 1
@@ -55,7 +55,7 @@ package parse
 // names, the last is the type of them all (C02: the kind a name is declared with is the one written behind it).
 //@ func (p *metaParser) parseDecl() (d)
 //@   requires p.scanner != nil && p.fset != nil && scanLeft >= 0
-//@   assigns p.pos, p.tok, p.text, p.failed, p.errors, elems(p.errors), scanLeft, identsRead
+//@   assigns p.pos, p.tok, p.text, p.failed, p.errors, elems(p.errors), scanLeft, scanEnd, identsRead
 //@   at call (*parse.metaParser).parseIdent set identsRead = identsRead + ite(result0 != nil, 1, 0)
 //@   ensures [C02,C13] one-type-for-the-names-written-before-it: d != nil ==> identsRead - old(identsRead) == len(d.Names) + 1 && d.Type != nil
 //@   ensures scanLeft >= 0
@@ -74,7 +74,7 @@ package parse
 
 //@ func (p *metaParser) parse() (m)
 //@   requires p.scanner != nil && p.fset != nil && scanLeft >= 0
-//@   assigns p.pos, p.tok, p.text, p.failed, p.errors, elems(p.errors), scanLeft, identsRead
+//@   assigns p.pos, p.tok, p.text, p.failed, p.errors, elems(p.errors), scanLeft, scanEnd, identsRead
 //@   loop 0
 //@     invariant scanLeft >= 0
 //@     invariant p.errors.arr == old(p.errors.arr) || fresh(p.errors.arr)
